@@ -12,6 +12,7 @@ from autograd.tracer import isbox, getval
 from autograd.util import toposort
 
 LOG = []
+BOMB = {"armed": False, "node": None}      # fault injection for C19: this node's rule raises while armed
 
 
 @primitive
@@ -40,6 +41,8 @@ def op_vjpmaker(argnums, ans, args, kwargs):
     coefs = [partial(kind, consts, vals, a - 3) for a in argnums]
 
     def vjp(g):
+        if BOMB["armed"] and BOMB["node"] == nid:
+            raise RuntimeError("planted fault in the derivative rule of node %d" % nid)
         LOG.append(nid)
         return tuple(g * c for c in coefs)
 
